@@ -86,7 +86,7 @@ func c09Oracle(ctx *genCtx, dir string, files map[string]string, args []string, 
 				return r, &genViolation{Clause: "exit0-unparseable-file", Detail: fmt.Sprintf("[%s %s] goderive exits 0 but %s does not parse: %v", s.Kind, s.Call, rel, err), Facts: facts}
 			}
 		}
-		errs := typecheck(dir, args...)
+		_, errs := typecheckWorldAll(dir, args...)
 		var ours, theirs []string
 		for _, e := range errs {
 			switch {
@@ -109,6 +109,9 @@ func c09Oracle(ctx *genCtx, dir string, files map[string]string, args []string, 
 		}
 		if len(ours) > 0 && len(theirs) == 0 {
 			facts["typeerrors"] = strings.Join(ours, "\n")
+			if len(ours) > 6 {
+				ours = ours[:6]
+			}
 			return r, &genViolation{Clause: "exit0-bad-file", Detail: fmt.Sprintf("[%s %s %s] goderive exits 0 but the package does not type-check because of the generated code: %s", s.Kind, s.Call, s.Type, strings.Join(ours, " | ")), Facts: facts}
 		}
 		if mustReject[s.Kind] && !strings.Contains(s.Type, "unsafe.Pointer") && len(theirs) == 0 {
